@@ -42,6 +42,7 @@ func runC01(c *Ctx) {
 		cycleGuard(s, "R3", "(*Value).toGoValueInterval")
 		cycleGuard(s, "R3", "(*Value).prettyStringInteral")
 	})
+	c.shared("R12", "C15/R2", "no nil cell ever sits in a slice that a value may still cover: pop and popfirst only re-slice their receiver, nothing is written into the backing array (which copies of the array share), so rendering or iterating another reference never meets a nil cell", keyHas("array.pop", "array.push"), func(s *Ctx) { c15R2(s, nativeMethods(s.P)) })
 	c.shared("R9", "C08/R3", "runaway recursion ends in an error, not in a Go stack overflow: every frame pushed on another one is one deeper, and the depth test precedes the push", keyHas("depth"), func(s *Ctx) { c08R3(s, discoverFrameModel(s.P), "R3") })
 }
 
